@@ -229,6 +229,11 @@ FIXED = [
     ((ALL, BEHIND), (2,), [S0, S1, PUB1, L0, PUB1, S0, A0, A1, A1]),
     ((ALL,), (1,), [S0, A0, PUB1, L0, S0, S1, L0, S0, A0]),
     ((ALL, RECENT), (0,), [S0, S1, L1, L0, PUB1, S0, S1, PUB1, A1]),
+    # a registration slot reused after its previous occupant was kicked (not read / read to its end / kicked while parked)
+    ((ALL, BEHIND, RECENT), (0, 2), [S0, K0, L0, S0, PUB1, P0, PUB1, A0]),
+    ((ALL,), (1,), [S0, S1, K1, P1, L1, S1, PUB1, B1, B0]),
+    ((ALL, RECENT), (0,), [S0, A0, K0, L0, S0, A0, PUB1, P0]),
+    ((ALL,), (2,), [S0, S1, K0, L0, L1, S0, S1, PUB1, P1]),
     # skipping readers, single publishes while parked
     ((BEHIND, RECENT), (1, 2), [S0, A0, PUB1, PUB2, PUB1, A0, A0, A0]),
     ((BEHIND, RECENT), (1, 3), [S0, PUB2, PUB2, P0, PUB2, P0, P0, P0]),
@@ -326,6 +331,55 @@ def select(mode, tier):
     return out
 
 
+def _akey(m, prev):
+    cap = (m.maxq if m.maxq is not None else 3) + 2
+
+    def sk(x):
+        if not x.active: return ('-',)
+        return (x.kicked, x.parked, x.ended, min(m.n - x.c, cap), min(m.n - x.hi, cap))
+    return (min(m.n, 3), m.closed, sk(m.s[0]), sk(m.s[1]), tuple(prev))
+
+
+def _run(mode, cfg, ops):
+    """replay with slot-generation bookkeeping (what the previous occupant of a registration slot looked like when it left)"""
+    m = Model(mode, cfg, False)
+    prev = [None, None]
+    for op in ops:
+        info = None
+        if op >= LEAVE:
+            x = m.s[op - LEAVE]
+            info = (x.kicked, x.ended)
+        if not m.apply(op): return None
+        if op >= LEAVE:
+            prev[op - LEAVE] = info
+    return m, prev
+
+
+def cover_vectors(mode, cfg, max_prefix):
+    """one step from every abstract state: breadth-first search over (published count capped at 3, closed, per subscriber slot: active /
+    kicked / parked / ended / lag and skipped lag capped at max+2, how the previous occupant of the slot left); for every state its
+    shortest history of <= max_prefix operations followed by every applicable single operation (selection device only)"""
+    seen = {_akey(*_run(mode, cfg, [])): []}
+    frontier = [[]]
+    for d in range(max_prefix):
+        nxt = []
+        for pre in frontier:
+            for op in range(NOPS):
+                r = _run(mode, cfg, pre + [op])
+                if r is None: continue
+                k = _akey(*r)
+                if k not in seen:
+                    seen[k] = pre + [op]; nxt.append(pre + [op])
+        frontier = nxt
+    out = []
+    for k, pre in seen.items():
+        for op in range(NOPS):
+            h = pre + [op]
+            if _run(mode, cfg, h) is not None and any(SUBR <= o < POLL for o in h):
+                out.append(vec(mode, cfg, h))
+    return out, len(seen)
+
+
 SELECTION = ('(max,min)=(2,1): every history; (1,1): the histories publishing >= 2 values; (3,2): those subscribing at position n-2 or '
              'publishing >= 4 values')
 
@@ -347,6 +401,17 @@ def plan(tier):
     units.append(unit('fixed', fixed_vectors(FIXED, ISOLATE), '%d hand-written histories of 5..9 operations x the modes and configurations listed in C16.py '
                       '(lag > max, lag == max, closed-and-drained, close/kick while parked, copy then diverge, subscribe at a retained position, '
                       'slot reuse, skipping readers)' % len(FIXED), concrete=CONCRETE[3:]))
+    if tier != 'quick':
+        cv = []; ns = 0
+        for mode in (ALL, BEHIND, RECENT):
+            for cfg in (1, 2, 3):
+                v, n = cover_vectors(mode, cfg, 3)
+                cv += v; ns += n
+        have = set(tuple(v) for u in units for v in u['vectors'])
+        cv = [v for v in cv if tuple(v) not in have]
+        units.append(unit('cover', cv, 'one step from every abstract state: 3 modes x configurations (1,1),(2,1),(3,2) x breadth-first search over the abstraction (published count capped at 3, closed, '
+                          'per subscriber slot: active / kicked / parked / ended / lag capped at max+2, how the previous occupant of the slot left) to depth 3: %d states; for each its shortest '
+                          'history followed by every applicable single operation over ' % ns + ALPHABET))
     for name, what, entries in DEFECT_UNITS:
         units.append(unit(name, fixed_vectors(entries, False), 'situation kept out of the enumerated units: ' + what))
     # publisher thread against subscriber thread at lock-region granularity (harness/C16conc.cpp)
